@@ -279,14 +279,23 @@ def load_known():
 
 
 def tags_of_failure(f, meta, safety_tags):
-    if not f['clause'] and f['kind'] == 'assertion':
-        # an assertion of a proof block that carries no clause marker: it serves the clauses of its function
+    if not f['clause'] and f['kind'] in ('assertion', 'invariant'):
+        # an assertion of a proof block, or a loop invariant, that carries no clause marker: it serves the clauses of its function
+        # (Verus assumes it after the failure, so the postcondition it was there for is never reported)
         t = []
         for c in meta['clauses'].values():
             if ann.scope_of(c['where']) == f['fn']:
                 t += [x for x in c['tags'] if x not in t]
         if t:
             return t
+    if not f['clause'] and f['kind'] == 'precondition':
+        # an unmarked precondition of a callee under contract (a representation invariant, say) fails at this call: the call is
+        # assumed to satisfy it afterwards, so everything the caller's clauses state is in doubt — and it is a safety obligation too
+        t = list(safety_tags)
+        for c in meta['clauses'].values():
+            if ann.scope_of(c['where']) == f['fn']:
+                t += [x for x in c['tags'] if x not in t]
+        return t
     if f['clause'] and f['clause'].startswith('ASSUME.') and f['kind'] == 'precondition':
         return list(safety_tags)   # the precondition of a std function (a panic condition) is a safety obligation of the caller
     if f['clause'] and f['clause'] in meta['clauses']:
@@ -536,6 +545,12 @@ def _run(pid, P, tier, seed, scratch, t0):
                 # code, it is a violation after all (the input is the evidence)
                 if f.get('witness') is None and not f.get('searched'):
                     f['searched'] = True
+                    if not f.get('clause'):
+                        # an unmarked assertion / loop invariant: search with the families of the clause of its function it serves
+                        for c_ in meta['clauses'].values():
+                            if ann.scope_of(c_['where']) == f['fn'] and pid in c_['tags']:
+                                f['clause_for_witness'] = c_['id']
+                                break
                     try:
                         import witness
                         witness.find(pid, f, REPO, scratch)
@@ -898,7 +913,8 @@ def self_test(pid, scratch):
         results.append(dict(case='witness-family oracles on the unchanged tree', expect='no input flagged', outcome='error: %s' % ex_, ok=False))
     same, detail = golden_agrees(scratch)
     results.append(dict(case='recorded corpus (golden/corpus.json) on the unchanged tree', expect='answered as recorded', outcome=detail, ok=same))
-    for name, patch, expect in cases:
+    def one_case(case):
+        name, patch, expect = case
         work = os.path.join(scratch, 'selftest_' + re.sub(r'\W', '_', name))
         os.makedirs(work)
         shutil.copytree(os.path.join(REPO, 'src'), os.path.join(work, 'src'))
@@ -908,14 +924,15 @@ def self_test(pid, scratch):
         if a.returncode != 0:
             a = sh(['patch', '-p1', '-s', '-i', patch], cwd=work)
         if a.returncode != 0:
-            results.append(dict(case=name, expect=expect, outcome='patch does not apply (skipped)', ok=True))
-            continue
+            return dict(case=name, expect=expect, outcome='patch does not apply (skipped)', ok=True)
         r = sh([os.path.join(HERE, 'check'), pid, '--tier', 'quick'], cwd=HERE,
-               env=dict(os.environ, VERIF_REPO=work, VERIF_EVIDENCE_DIR=os.path.join(scratch, 'selftest_evidence'),
+               env=dict(os.environ, VERIF_REPO=work, VERIF_EVIDENCE_DIR=os.path.join(work, 'selftest_evidence'),
                         VERIF_NO_SELFTEST='1', VERIF_TIER='quick'))
         ok = (r.returncode == 1) if expect == 'violation' else (r.returncode != 1)
-        results.append(dict(case=name, expect=expect, outcome='exit %d' % r.returncode, ok=ok))
         shutil.rmtree(work, ignore_errors=True)
+        return dict(case=name, expect=expect, outcome='exit %d' % r.returncode, ok=ok)
+    with concurrent.futures.ThreadPoolExecutor(max_workers=3) as ex:
+        results += list(ex.map(one_case, cases))
     return results
 
 
